@@ -337,7 +337,11 @@ func (g *gen) method(verb, p string, grouped bool) *node {
 	}
 	if g.r.Chance(1, 4) {
 		g.feat("description")
-		nd.kids = append(nd.kids, &node{head: "Description", body: []string{"Some *text* about " + g.r.Pick(words), "second line"}})
+		body := []string{"Some *text* about " + g.r.Pick(words)}
+		for i := 0; i < g.r.Intn(3); i++ {
+			body = append(body, "")
+		}
+		nd.kids = append(nd.kids, &node{head: "Description", body: append(body, "second line")})
 	}
 	if !grouped && strings.Contains(p, "{") && g.r.Chance(1, 2) && g.claimPathParams(p) {
 		g.feat("path")
@@ -519,7 +523,15 @@ func genValid(r *Rand) *Project {
 			info.kids = append(info.kids, &node{head: "Version 1." + fmt.Sprint(r.Intn(9))})
 		}
 		if r.Chance(1, 2) {
-			info.kids = append(info.kids, &node{head: "Description", body: []string{"About this API.", "", "More."}})
+			body := []string{"About this API."}
+			for i := 0; i < r.Range(0, 3); i++ { // runs of empty lines inside the text
+				body = append(body, "")
+			}
+			body = append(body, "More.")
+			if r.Chance(1, 3) {
+				body = append(body, "", "", "", "End.")
+			}
+			info.kids = append(info.kids, &node{head: "Description", body: body})
 		}
 		info.explicit = r.Chance(1, 3)
 		top = append(top, info)
